@@ -495,6 +495,10 @@ class WsgiApplication(HttpBase):
         except Exception as e:
             logger.exception(e)
             p_ctx.out_error = Fault('Server', get_fault_string_from_exception(e))
+            # drop the partially built response and its status so that the
+            # fault is what gets serialized and reported
+            p_ctx.out_document = None
+            p_ctx.transport.resp_code = None
             return self.handle_error(p_ctx, others, p_ctx.out_error,
                                                                  start_response)
 
